@@ -4,7 +4,7 @@
 
 use crate::puppet::{Fin, Mode};
 use crate::seq::CaseSpec;
-use crate::topo::{Built, Topo, UnOp};
+use crate::topo::{Built, Link, OpKind, Topo, UnOp};
 use crate::world::{push_violation, Dir, EdgeId, Inner, Kind, Role, Val};
 use std::collections::BTreeSet;
 
@@ -187,6 +187,19 @@ fn ancestor(g: &Inner, ev: usize, f: impl Fn(usize) -> bool) -> Option<usize> {
 /// the sink-side Pull (on a probe edge) a given upstream Pull is attributed to: the nearest
 /// enclosing probe Pull, provided no sink delivery lies in between (a Pull issued by an operator
 /// on its own while delivering is not attributed).
+/// the Pull on edge `se` (the operator's output edge) a given upstream Pull is attributed to
+fn attributed_pull_on(g: &Inner, ev: usize, se: EdgeId) -> Option<usize> {
+    let mut p = g.events[ev].parent;
+    while p >= 0 {
+        let e = &g.events[p as usize];
+        if e.edge as usize == se && e.dir == Dir::Up && e.kind == Kind::Pull {
+            return Some(p as usize);
+        }
+        p = e.parent;
+    }
+    None
+}
+
 fn attributed_probe_pull(g: &Inner, ev: usize) -> Option<usize> {
     let mut p = g.events[ev].parent;
     while p >= 0 {
@@ -257,6 +270,7 @@ pub fn after_step(b: &Built, spec: &CaseSpec, st: &mut State, w: &Which) {
             }
         },
         Topo::Share(_) if w.c12 => c12_step(b, g, st, from, to),
+        Topo::Tree(_) => tree_step(b, g, st, w, from, to),
         Topo::FromIter(_) if w.c15 => c15_step(b, g, st, from, to),
         _ => {},
     }
@@ -615,11 +629,11 @@ fn c07_step(b: &Built, g: &mut Inner, st: &mut State, u: UnOp) {
             Some(e) => e,
             None => continue,
         };
-        c07_one(b, g, st, u, pe, se);
+        c07_one(g, st, &b.op, u, pe, se);
     }
 }
 
-fn c07_one(b: &Built, g: &mut Inner, st: &mut State, u: UnOp, pe: EdgeId, se: EdgeId) {
+fn c07_one(g: &mut Inner, st: &mut State, op: &str, u: UnOp, pe: EdgeId, se: EdgeId) {
     let xs_ev = evs(g, pe, Dir::Down, &[Kind::Data]);
     let xs: Vec<i64> = xs_ev.iter().map(|i| g.events[*i].val.a[0]).collect();
     let ys_ev = evs(g, se, Dir::Down, &[Kind::Data]);
@@ -628,7 +642,7 @@ fn c07_one(b: &Built, g: &mut Inner, st: &mut State, u: UnOp, pe: EdgeId, se: Ed
     let ts = times(g, se);
     let tp = times(g, pe);
     let disposed = ts.uterm_in != INF;
-    let op = b.op.clone();
+    let op = op.to_string();
     bump(st, "c07.compare");
     let ok = if disposed { want.len() >= ys.len() && want[..ys.len()] == ys[..] } else { want == ys };
     if !ok {
@@ -807,7 +821,7 @@ fn check_pull_fanout(
             };
             let got: Vec<usize> = evs(g, m.edge, Dir::Up, &[Kind::Pull])
                 .into_iter()
-                .filter(|j| attributed_probe_pull(g, *j) == Some(y))
+                .filter(|j| attributed_pull_on(g, *j, se) == Some(y))
                 .collect();
             // a member that ends or is stopped while the Pull is being broadcast (nested pulls
             // from inside a sibling's reply can exhaust it) need not be reached any more
@@ -939,6 +953,67 @@ fn check_data_sequence(
 }
 
 // ---------------------------------------------------------------------------------------------
+// composed topologies: every operator instance is judged by the oracle of its own property, with
+// the taps (or leaf puppets) on its inputs as its members and the tap (or probe) on its output as
+// its sink. Sound because a tap is a conformant peer exactly as long as the operators behind it
+// are: the first violation of an execution is the one that is reported.
+// ---------------------------------------------------------------------------------------------
+
+fn edge_of_link(g: &Inner, l: Link, owner: usize) -> Option<EdgeId> {
+    match l {
+        Link::Puppet(id) => edge_of_puppet_owned(g, id, owner),
+        Link::Tap(t) => (0..g.edges.len())
+            .find(|i| matches!(g.edges[*i].role, Role::Tap(tt, _) if tt as usize == t) && g.edges[*i].owner == owner as i32),
+        Link::Probe => edge_of_probe(g, owner),
+        Link::Unknown => None,
+    }
+}
+
+fn tree_step(b: &Built, g: &mut Inner, st: &mut State, w: &Which, from: usize, to: usize) {
+    let failing = b.puppet_specs.iter().any(|s| s.fin == Fin::Err);
+    for owner in 0..b.probes.len() {
+        for inst in b.info.ops.iter() {
+            let se = match edge_of_link(g, inst.output, owner) {
+                Some(e) => e,
+                None => continue,
+            };
+            let mem: Vec<Option<Member>> = inst
+                .inputs
+                .iter()
+                .map(|l| edge_of_link(g, *l, owner).map(|e| Member { edge: e, t: times(g, e) }))
+                .collect();
+            match &inst.kind {
+                OpKind::Un(u) if w.c07 => {
+                    if let Some(Some(m)) = mem.first() {
+                        bump(st, "tree.unary-instance-steps");
+                        c07_one(g, st, u.name(), *u, m.edge, se);
+                    }
+                },
+                OpKind::Merge if w.c08 && !mem.is_empty() => {
+                    bump(st, "tree.merge-instance-steps");
+                    c08_core(g, st, "merge", se, mem, from, to)
+                },
+                OpKind::Concat if w.c09 && !mem.is_empty() => {
+                    bump(st, "tree.concat-instance-steps");
+                    c09_core(g, st, "concat", se, mem, from, to)
+                },
+                OpKind::Combine2 if w.c10 => {
+                    bump(st, "tree.combine-instance-steps");
+                    c10_core(g, st, "combine", se, mem, failing, from, to)
+                },
+                OpKind::Flatten(outer) if w.c11 => {
+                    if let Some(oe) = edge_of_puppet_owned(g, *outer, owner) {
+                        bump(st, "tree.flatten-instance-steps");
+                        c11_core(g, st, "flatten", se, oe, mem, 0, from, to);
+                    }
+                },
+                _ => {},
+            }
+        }
+    }
+}
+
+// ---------------------------------------------------------------------------------------------
 // C08 merge
 // ---------------------------------------------------------------------------------------------
 
@@ -947,8 +1022,12 @@ fn c08_step(b: &Built, g: &mut Inner, st: &mut State, n: usize, from: usize, to:
         Some(e) => e,
         None => return,
     };
-    let op = b.op.clone();
     let mem = members(g, n, owner);
+    c08_core(g, st, &b.op, se, mem, from, to);
+}
+
+fn c08_core(g: &mut Inner, st: &mut State, op: &str, se: EdgeId, mem: Vec<Option<Member>>, from: usize, to: usize) {
+    let op = op.to_string();
     let ts = times(g, se);
     // (a) greeted when the first member greets
     let first = mem
@@ -1016,13 +1095,18 @@ fn c08_step(b: &Built, g: &mut Inner, st: &mut State, n: usize, from: usize, to:
 // C09 concat
 // ---------------------------------------------------------------------------------------------
 
-fn c09_step(b: &Built, g: &mut Inner, st: &mut State, n: usize, _from: usize, _to: usize, owner: usize) {
+fn c09_step(b: &Built, g: &mut Inner, st: &mut State, n: usize, from: usize, to: usize, owner: usize) {
     let se = match edge_of_probe(g, owner) {
         Some(e) => e,
         None => return,
     };
-    let op = b.op.clone();
     let mem = members(g, n, owner);
+    c09_core(g, st, &b.op, se, mem, from, to);
+}
+
+fn c09_core(g: &mut Inner, st: &mut State, op: &str, se: EdgeId, mem: Vec<Option<Member>>, _from: usize, _to: usize) {
+    let op = op.to_string();
+    let n = mem.len();
     let ts = times(g, se);
     // (a) member k+1 is subscribed only after member k has completed
     for k in 1..n {
@@ -1084,8 +1168,10 @@ fn c09_step(b: &Built, g: &mut Inner, st: &mut State, n: usize, _from: usize, _t
         emitted_while_open(g, &edges, &ts).into_iter().map(|i| (i, g.events[i].val)).collect();
     check_data_sequence(g, st, "C09", &op, se, &exp, "not-the-concatenation");
     let mut last_member = 0i64;
-    for (_, v) in &exp {
-        let mi = v.a[0] / 1000;
+    for (ei, _) in &exp {
+        // which member emitted it
+        let e = g.events[*ei].edge as usize;
+        let mi = mem.iter().position(|m| m.as_ref().map(|m| m.edge == e).unwrap_or(false)).unwrap_or(0) as i64;
         if mi < last_member {
             report(g, st, &["C09"], "members-interleaved", &op, se, -1, "data of an earlier member after a later one".into());
         }
@@ -1111,13 +1197,20 @@ fn c10_step(b: &Built, g: &mut Inner, st: &mut State, n: usize, from: usize, to:
         Some(e) => e,
         None => return,
     };
-    let op = b.op.clone();
     let mem = members(g, n, owner);
+    let failing = b.puppet_specs.iter().any(|s| s.fin == Fin::Err);
+    c10_core(g, st, &b.op, se, mem, failing, from, to);
+}
+
+#[allow(clippy::too_many_arguments)]
+fn c10_core(g: &mut Inner, st: &mut State, op: &str, se: EdgeId, mem: Vec<Option<Member>>, failing: bool, from: usize, to: usize) {
+    let op = op.to_string();
+    let n = mem.len();
     let ts = times(g, se);
     // member errors are C05's business (finding D: an Error is counted as a completion); with a
     // failing member only the weakest reading of "completes after all members have ended" is
     // judged: once every member has ended, one way or the other, the sink has heard *a* terminal
-    if b.puppet_specs.iter().any(|s| s.fin == Fin::Err) {
+    if failing {
         let all_ended = mem.iter().all(|m| m.as_ref().map(|m| m.t.dterm_ev >= 0).unwrap_or(false));
         if all_ended {
             let last = mem.iter().map(|m| m.as_ref().unwrap().t.dterm_ev as usize).max_by_key(|i| g.events[*i].t_in).unwrap();
@@ -1169,9 +1262,9 @@ fn c10_step(b: &Built, g: &mut Inner, st: &mut State, n: usize, from: usize, to:
     let mut exp: Vec<(usize, Val)> = vec![];
     for i in all {
         let ev = &g.events[i];
-        let mi = match g.edges[ev.edge as usize].role {
-            Role::Puppet(p, _) => p as usize,
-            _ => continue,
+        let mi = match mem.iter().position(|m| m.as_ref().map(|m| m.edge == ev.edge as usize).unwrap_or(false)) {
+            Some(p) => p,
+            None => continue,
         };
         latest[mi] = Some(ev.val.a[0]);
         if latest.iter().all(|x| x.is_some()) && ts.open_at(ev.t_in) {
@@ -1204,9 +1297,6 @@ fn c11_step(b: &Built, g: &mut Inner, st: &mut State, from: usize, to: usize, ow
         Some(e) => e,
         None => return,
     };
-    let op = b.op.clone();
-    let ts = times(g, se);
-    let to_ = times(g, oe);
     let n_inner = b.info.inners.len();
     // indexed by emission ordinal of the outer. Normally emission k carries inner puppet k+1; when
     // the outer emits the same source value every time, emission k belongs to the k-th subscription
@@ -1219,6 +1309,25 @@ fn c11_step(b: &Built, g: &mut Inner, st: &mut State, from: usize, to: usize, ow
     } else {
         (1..=n_inner).map(|p| edge_of_puppet_owned(g, p, owner).map(|e| Member { edge: e, t: times(g, e) })).collect()
     };
+    c11_core(g, st, &b.op, se, oe, inner, 1, from, to);
+}
+
+/// `val_base`: the value the outer puppet attaches to its first item (emission k carries val_base + k)
+#[allow(clippy::too_many_arguments)]
+fn c11_core(
+    g: &mut Inner,
+    st: &mut State,
+    op: &str,
+    se: EdgeId,
+    oe: EdgeId,
+    inner: Vec<Option<Member>>,
+    val_base: i64,
+    from: usize,
+    to: usize,
+) {
+    let op = op.to_string();
+    let ts = times(g, se);
+    let to_ = times(g, oe);
     let active_at = |g: &Inner, t: u32| -> Option<usize> {
         let _ = g;
         inner.iter().position(|m| m.as_ref().map(|m| m.t.live_at(t)).unwrap_or(false))
@@ -1233,7 +1342,10 @@ fn c11_step(b: &Built, g: &mut Inner, st: &mut State, from: usize, to: usize, ow
         if !ts.open_at(ev.t_in) {
             continue;
         }
-        let j = ev.val.a[0] as usize - 1;
+        let j = (ev.val.a[0] - val_base) as usize;
+        if j >= inner.len() {
+            continue;
+        }
         bump(st, "c11.inner-emitted");
         let prev = active_at(g, ev.t_in);
         match &inner[j] {
